@@ -79,7 +79,7 @@ func (s *state) step(b *ssa.BasicBlock, ii int, in ssa.Instruction) bool {
 	switch d := in.(type) {
 	case *ssa.Phi:
 	case *ssa.DebugRef:
-		if id, ok := d.Expr.(*ast.Ident); ok {
+		if id, ok := d.Expr.(*ast.Ident); ok && u.eng.isLocalVar(b.Parent(), id) {
 			s.names[id.Name] = nameBinding{v: d.X, isAddr: d.IsAddr}
 		}
 	case *ssa.Alloc:
@@ -179,7 +179,7 @@ func (s *state) step(b *ssa.BasicBlock, ii int, in ssa.Instruction) bool {
 		if x.Fld != nil {
 			panic(engineErr("address of scalar field escapes into interface"))
 		}
-		s.storeAt(t, "", "", &fieldRef{heap: "B_" + tname(t), ref: box, off: m.offConst(0)}, x)
+		s.storeBox(t, box, x)
 		s.vals[d] = Val{T: d.Type(), S: []string{fmt.Sprint(u.eng.typeID(t)), box}}
 	case *ssa.TypeAssert:
 		x := s.get(d.X)
@@ -198,7 +198,7 @@ func (s *state) step(b *ssa.BasicBlock, ii int, in ssa.Instruction) bool {
 		if u.rawBoxed {
 			panic(engineErr("type assertion in a unit that boxed a raw pointer into an interface"))
 		}
-		pv := s.loadAt(d.AssertedType, "", "", &fieldRef{heap: "B_" + tname(d.AssertedType), ref: x.S[1], off: m.offConst(0)})
+		pv := s.loadBox(d.AssertedType, x.S[1])
 		if d.CommaOk {
 			zero := m.zeroVal(d.AssertedType)
 			var ss []string
@@ -557,7 +557,7 @@ func (s *state) ifaceEq(a, b Val, x, y ssa.Value) string {
 	if mi := mk(y); mi != nil {
 		if _, ok := mi.X.Type().Underlying().(*types.Pointer); ok {
 			pv := s.get(mi.X)
-			av := s.loadAt(mi.X.Type(), "", "", &fieldRef{heap: "B_" + tname(mi.X.Type()), ref: a.S[1], off: s.u.m.offConst(0)})
+			av := s.loadBox(mi.X.Type(), a.S[1])
 			return and(eq(a.S[0], fmt.Sprint(s.u.eng.typeID(mi.X.Type()))), eq(av.S[0], pv.S[0]), eq(av.S[1], pv.S[1]))
 		}
 	}
